@@ -92,7 +92,14 @@ Inductive action :=
 | Drop (why : Z)
 | Send (d : dest) (t : tx).
 
-(* what scionproto's serializeAuthenticatedData + payload feed into the CMAC
+(* The L4 part of the MAC input is the L4 part AS PARSED: the UDP header fields and the
+   payload that the UDP length field delimits - the same bytes the NTP part then
+   evaluates ([Udp s d n p] of [rx_l4]) - not whatever bytes end the datagram
+   (fix: the repair of the MAC input in listener and client; before it both took
+   the last [n] bytes of the datagram, so a datagram  UDP'(n) | forged payload |
+   genuine UDP header | genuine payload  with the genuine authenticator verified
+   while the forged payload was served / accepted).
+   what scionproto's serializeAuthenticatedData + payload feed into the CMAC
    for a DRKey host-host SPI: option metadata (SPI selects the layout,
    algorithm, timestamp/sequence number), the immutable header fields, the
    path (its mutable fields are zeroed by the library), the payload type and
